@@ -67,9 +67,10 @@ MAP_OPS = ["m_get", "m_at", "m_set", "m_count", "m_erase", "m_size", "m_clear", 
 STR_OPS = ["s_get", "s_size", "s_clear", "s_append", "s_append_c", "s_push", "s_substr", "s_find", "s_insert", "s_erase", "s_empty", "s_assign", "s_set"]
 RNG_OPS = ["r_new", "r_new_s", "r_new_retro", "r_front", "r_back", "r_pop_front", "r_pop_back", "r_empty", "r_new_m"]
 PAIR_OPS = ["p_new", "p_first", "p_second"]
+CONST_OPS = ["cv_get", "cs_get", "lit_get", "cv_front", "cs_substr", "cv_range"]
 
 step = st.fixed_dictionaries({
-    "op": st.sampled_from(VEC_OPS * 3 + MAP_OPS * 2 + STR_OPS * 2 + RNG_OPS * 3 + PAIR_OPS),
+    "op": st.sampled_from(VEC_OPS * 3 + MAP_OPS * 2 + STR_OPS * 2 + RNG_OPS * 3 + PAIR_OPS + CONST_OPS * 2),
     "ix": st.sampled_from(IDX),
     "ix2": st.sampled_from(IDX),
     "x": st.integers(-9, 99),
@@ -295,6 +296,25 @@ def plan(st_, M):
             M.drop_views("s")
             return "s.erase_at(%s)" % lit_int(j), None
         return "s.erase_at(%s)" % lit_int(j), RAISE
+    # ---- const containers (published by the host with add_global_const, and string literals): the const overloads
+    if op == "cv_get":
+        ci = resolve(st_["ix"], 3)
+        return "cvec_h[%s]" % lit_int(ci), ("i32:%d" % [10, 20, 30][ci] if 0 <= ci < 3 else RAISE)
+    if op == "cs_get":
+        ci = resolve(st_["ix"], 5)
+        return "cstr_h[%s]" % lit_int(ci), (r_char("hello"[ci]) if 0 <= ci < 5 else RAISE)
+    if op == "lit_get":
+        ci = resolve(st_["ix"], 3)
+        # used as a value: the element reference itself points into the literal, which does not outlive the evaluation
+        return "\"abc\"[%s] + 0" % lit_int(ci), ("i32:%d" % ord("abc"[ci]) if 0 <= ci < 3 else RAISE)
+    if op == "cv_front":
+        return "[cvec_h.front(), cvec_h.back(), int(cvec_h.size())]", "[i32:10, i32:30, i32:3]"
+    if op == "cs_substr":
+        ci = resolve(st_["ix"], 5)
+        pos_arg = ci if ci >= 0 else ci + 2 ** 64
+        return "cstr_h.substr(%s, 2)" % lit_int(ci), (("str:" + q("hello"[pos_arg:pos_arg + 2])) if pos_arg <= 5 else RAISE)
+    if op == "cv_range":
+        return "var cr%d = range(cvec_h); cr%d.pop_front(); cr%d.front()" % (x, x, x) if False else "fun() { var cr = range(cvec_h); cr.pop_front(); cr.pop_back(); [cr.front(), cr.back()] }()", "[i32:20, i32:20]"
     # ---- pair
     if op == "p_new":
         M.p = (x, x + 1)
@@ -380,7 +400,7 @@ def check(c, ctx):
             script, exp = pl
             opn = st_["op"]
             size = sizes["s"] if opn.startswith("s_") else sizes["v"]
-            bnd = boundary(st_["ix"], size) and opn in ("v_get", "v_set", "v_insert", "v_erase", "s_get", "s_set", "s_substr", "s_find", "s_insert", "s_erase")
+            bnd = boundary(st_["ix"], size) and opn in ("v_get", "v_set", "v_insert", "v_erase", "s_get", "s_set", "s_substr", "s_find", "s_insert", "s_erase", "cv_get", "cs_get", "lit_get", "cs_substr")
             if bnd or exp == RAISE or (size == 0 and opn in ("v_front", "v_back", "v_pop", "r_front", "r_back", "r_pop_front", "r_pop_back")):
                 nontrivial = True
             ctx.classify("ops", opn + ("/boundary" if bnd or exp == RAISE else ""))
